@@ -24,6 +24,8 @@ import (
 //                   response frame is not silently dropped by a `default` arm while the connection stays up
 //   R-fresh-buffer  a reader loop decodes each message into a buffer created in that iteration
 //   R-pending-pair  (shared with C05) pending entries are removed on every path from registration to exit
+//   R-queue-answered  (shared with C03) on queue-answering transports every path after the dispatch enqueues a frame
+//   R-pending-key   (shared with C05) pending keys come from a counter living in the object that holds the table
 func init() { Registry["C01"] = checkC01 }
 
 func isRespType(t types.Type) string {
